@@ -201,6 +201,8 @@ func checkC02(cx *Ctx, r *Report) {
 	if nRedir == 0 {
 		r.Fail("R-VFG", "sendBackResponse:redirect-target", w.FnPos(sb), "no redirect delivery found in sendBackResponse")
 	}
+	// a reply rendered through a pooled buffer must not carry a previous reply
+	cx.checkPoolEscape(r)
 	r.Min("R-VFG", 20)
 }
 
